@@ -470,7 +470,26 @@ func (g *vgen) length() int {
 	if g.r.intn(4) == 0 {
 		n = g.r.intn(24)
 	}
+	if !g.big && g.r.intn(12) == 0 {
+		// now and then a long one in the quick tier too: chunked writers / readers show only beyond their chunk size
+		n = []int{31, 32, 33, 40, 64, 65, 100, 255, 256, 300}[g.r.intn(10)]
+	}
 	return n
+}
+
+// text builds a valid UTF-8 string of about n bytes: ASCII mixed with 2-, 3- and 4-byte characters, so that the number
+// of characters differs from the number of bytes
+func (g *vgen) text(n int) []byte {
+	var b []byte
+	runes := []rune{'é', 'ß', 'Ω', 'ж', '°', '€', '中', '日', 'ก', '\u2028', '😀', '𝄞', '\u00a0', '\u07ff', '\u0800', '\uffff', '\U00010000', '\U0010ffff'}
+	for len(b) < n {
+		if g.r.intn(3) == 0 {
+			b = append(b, string(runes[g.r.intn(len(runes))])...)
+		} else {
+			b = append(b, byte(32+g.r.intn(95)))
+		}
+	}
+	return b
 }
 
 func (g *vgen) randBytes(n int) []byte {
@@ -508,9 +527,14 @@ func (g *vgen) value(c *sContainer, depth int) *gval {
 			}
 		case "str":
 			n := g.length()
-			b := make([]byte, n)
-			for j := range b {
-				b[j] = byte(32 + g.r.intn(95)) // printable ASCII: valid UTF-8 (the JSON clause's domain)
+			var b []byte
+			if g.r.intn(2) == 0 {
+				b = make([]byte, n)
+				for j := range b {
+					b[j] = byte(32 + g.r.intn(95)) // printable ASCII
+				}
+			} else {
+				b = g.text(n) // valid UTF-8 with multi-byte characters (the JSON clause's domain is valid UTF-8)
 			}
 			v.fs = append(v.fs, gf{kind: 'x', bytes: b})
 		case "bitArr":
